@@ -5,6 +5,9 @@ HERE = os.path.dirname(os.path.abspath(__file__))
 
 CHECKS = {
  # id: (level, technique, level text, level note)
+ "C01": ("translation_validation", "property-based testing: Hypothesis-generated design programs, each validated against a reference interpreter (differential oracle, isomorphism of flat circuits)",
+         "Each generated design program is built and exported by Hdl21 in a pristine process and its package, read with the netlisters' bit order, is compared up to isomorphism with an independent reference interpreter's flat circuit (devices, net partition over terminal and port bits, no-connect isolation).",
+         "Trusts the reference interpreter (vlib/model.py), vlsir/protobuf and the vlsirtools bit-order convention; sampled program space with measured feature histogram; rejections are counted, not failures."),
  "C14": ("exploration", "property-based testing (Hypothesis) plus exhaustive enumeration of the 441 prefix pairs x mantissa set, oracle = fractions.Fraction arithmetic",
          "Every +,-,*,neg,abs,scale,conversion, the six comparisons, hash, int and float of generated operand pairs is compared with exact rational arithmetic; the prefix-pair box is complete, mantissas are sampled.",
          "Trusts CPython Fraction/Decimal/float(Fraction); tolerance read as absolute 1e-20 on values; sampling never shows absence."),
